@@ -40,7 +40,7 @@ def run_task(task):
         # targets must exist (a contract whose target vanished is an error, not a pass)
         for tq in sdef.targets:
             I.repo.find(tq)
-        timeout = 10000 if tier == "quick" else 60000
+        timeout = 20000 if tier == "quick" else 90000
         results = I.run_paths(lambda: sdef.fn(spec.Session(I, sdef, cfg)))
         out["paths"] = len(results)
         prefix = f"{prop}/{sname}" + (f"[{cfg}]" if cfg is not None else "")
